@@ -1,6 +1,6 @@
 SPECIFICATION GenSpecP
 CONSTANTS Names <- NamesQ Depth = 1 Vals <- ValsQ Sep = 46 Design = "list" Base <- NoBase MaxSlots = 3
-  Ends <- Ends0 Strs <- StrsT Seps <- SepsT Asgs <- AsgsQ Elems <- ElemsQ
+  Ends <- Ends0 Strs <- StrsT Seps <- SepsQ Asgs <- AsgsQ Elems <- ElemsQ
 CONSTRAINT BoundPT
 VIEW ViewP
 ACTION_CONSTRAINT Emit
